@@ -12,7 +12,8 @@ The only `panic` sites of the model are
 * `parseElifs` / `parseIfStatement`: no condition although `requireExpression = true` (`cond_some`);
 both are shown unreachable, and `no_panic_parseTokens` concludes that the parser never panics.
 
-Part 2 (fuel): see the end of this file for what is proved and what is only stated.
+Part 2 (fuel, `.outOfFuel`): `PoryProofs/ParserFuel.lean` (what is proved, what is only stated, and why
+the `EOF` assumption is needed).
 -/
 namespace Pory.Parser
 open Pory
@@ -221,7 +222,7 @@ theorem autoVar_some (env : Env) (sn : String) (n : Nat) (s : PState)
   have h1 : ((s.toks.getD 1 s.eof).type == TT.VAR) = false := by rw [h]; decide
   wpsimp [(frame_parseCommandStatement _ _ _).wp_iff, h1]
   wpfin [wp_true_iff]
-  all_goals first | exact wp_true _ _ | simp
+  all_goals simp [wp_true_iff]
 
 theorem np_peekTokenIsAutoVar (env : Env) : NP (peekTokenIsAutoVar env) := by
   intro s; unfold peekTokenIsAutoVar; npsimp
@@ -264,5 +265,356 @@ theorem np_parseConditionVarOperator (e : OpExpr) (n : Nat) : NP (parseCondition
 theorem np_parseConditionFlagLikeOperator (e : OpExpr) (nm : String) :
     NP (parseConditionFlagLikeOperator e nm) := by
   intro s; unfold parseConditionFlagLikeOperator; npsimp
+
+theorem np_parseLeafBooleanExpression (env : Env) (sn : String) (n : Nat) :
+    NP (parseLeafBooleanExpression env sn n) := by
+  intro s
+  unfold parseLeafBooleanExpression
+  npsimp [wp_spec (peekTokenIsAutoVar_true _ _), (np_peekTokenIsAutoVar _).iff,
+    (np_collectUntil _ _ ((notPanic_err _ _).2 trivial) _ _).iff, (frame_collectUntil _ _ _ _).wp_iff,
+    (np_parseConditionVarOperator _ _).iff, (np_parseConditionFlagLikeOperator _ _).iff,
+    (np_expectPeekVarOrAutoVar _ _ _).iff]
+  have key : ∀ (st : PState) (β : Type) (F : Option (String × Cmd × ImpData) → PM β),
+      (st.toks.getD 1 st.eof).type = .IDENT → (∀ x s1, np (F (some x)) s1) →
+      wp (expectPeekVarOrAutoVar env sn n) st (fun a s1 => np (F a) s1) := by
+    intro st β F hid hF
+    refine wp_mono (autoVar_some env sn n st hid) ?_
+    intro a s1 hne
+    cases a with
+    | none => exact absurd rfl hne
+    | some x => exact hF x s1
+  split
+  · intro a s' _ h
+    obtain ⟨rfl, hid⟩ := h
+    split
+    · trivial
+    · split
+      · trivial
+      · rename_i hna
+        have ha : a = true := by simpa using hna
+        refine key _ _ _ (hid ha) ?_
+        rintro ⟨o, p, ai⟩ s1
+        npfin [(np_parseConditionVarOperator _ _).iff, (np_parseConditionFlagLikeOperator _ _).iff]
+  · intro a s' _ h
+    obtain ⟨rfl, hid⟩ := h
+    split
+    · trivial
+    · split
+      · trivial
+      · rename_i hna
+        have ha : a = true := by simpa using hna
+        refine key _ _ _ (hid ha) ?_
+        rintro ⟨o, p, ai⟩ s1
+        npfin [(np_parseConditionVarOperator _ _).iff, (np_parseConditionFlagLikeOperator _ _).iff]
+
+theorem np_boolBlock (env : Env) (sn : String) : ∀ n : Nat,
+    (∀ single negated, NP (parseBooleanExpression env sn single negated n)) ∧
+    (∀ left single negated, NP (parseRightSideExpression env sn left single negated n)) := by
+  intro n
+  induction n with
+  | zero =>
+    refine ⟨?_, ?_⟩
+    · intro a b s; rw [parseBooleanExpression]; npsimp
+    · intro l a b s; rw [parseRightSideExpression]; npsimp
+  | succ n ih =>
+    obtain ⟨ih1, ih2⟩ := ih
+    have f1 := fun a b => (frame_boolBlock env sn n).1 a b
+    have f2 := fun l a b => (frame_boolBlock env sn n).2 l a b
+    refine ⟨?_, ?_⟩
+    · intro a b s
+      rw [parseBooleanExpression]
+      npfin [(ih1 _ _).iff, (ih2 _ _ _).iff, (f1 _ _).wp_iff, (f2 _ _ _).wp_iff,
+        (np_parseLeafBooleanExpression _ _ _).iff, (frame_parseLeafBooleanExpression _ _ _).wp_iff]
+    · intro l a b s
+      rw [parseRightSideExpression]
+      npfin [(ih1 _ _).iff, (ih2 _ _ _).iff, (f1 _ _).wp_iff, (f2 _ _ _).wp_iff]
+
+theorem np_parseBooleanExpression (env : Env) (sn : String) (single negated : Bool) (n : Nat) :
+    NP (parseBooleanExpression env sn single negated n) := (np_boolBlock env sn n).1 single negated
+
+theorem np_tryParseLabelStatement : NP tryParseLabelStatement := by
+  intro s; unfold tryParseLabelStatement; npsimp
+
+theorem np_switchOperandLoop (ot : Tok) :
+    ∀ (n : Nat) (parts : List String), NP (parseSwitchStatement.switchOperandLoop ot n parts) := by
+  intro n
+  induction n with
+  | zero => intro parts s; rw [parseSwitchStatement.switchOperandLoop]; npsimp
+  | succ n ih => intro parts s; rw [parseSwitchStatement.switchOperandLoop]; npsimp [(ih _).iff]
+
+/-- Second panic site: with `requireExpression = true`, `parseConditionExpression` returns a
+condition. -/
+theorem cond_some (env : Env) (sn : String) (n : Nat) (s : PState) :
+    wp (parseConditionExpression env sn true n) s (fun r _ => r.1 ≠ none) := by
+  cases n with
+  | zero => rw [parseConditionExpression]; wpsimp
+  | succ n =>
+    rw [parseConditionExpression]
+    wpsimp [(frame_parseBooleanExpression _ _ _ _ _).wp_iff, wp_unfold (parseBlockStatement _ _ _ _ _ _)]
+    wpfin
+    all_goals simp
+
+theorem opt_absurd {α} {o : Option α} (h1 : ¬ o = none) (h2 : ∀ c, ¬ o = some c) : False := by
+  cases o with
+  | none => exact h1 rfl
+  | some c => exact h2 c rfl
+
+/-- No function of the statement block panics, at fuel `n`. -/
+structure NPAll (n : Nat) : Prop where
+  block : ∀ env sn tok acc imp, NP (parseBlockStatement env sn tok n acc imp)
+  swblock : ∀ env sn tok acc imp, NP (parseSwitchBlockStatement env sn tok n acc imp)
+  stmt : ∀ env sn, NP (parseStatement env sn n)
+  cond : ∀ env sn req, NP (parseConditionExpression env sn req n)
+  elifs : ∀ env sn acc imp, NP (parseElifs env sn n acc imp)
+  ifs : ∀ env sn, NP (parseIfStatement env sn n)
+  whiles : ∀ env sn, NP (parseWhileStatement env sn n)
+  doWhiles : ∀ env sn, NP (parseDoWhileStatement env sn n)
+  cases : ∀ env sn tok cs vals hd imp, NP (parseSwitchCases env sn tok n cs vals hd imp)
+  switch : ∀ env sn, NP (parseSwitchStatement env sn n)
+  pory : ∀ env sn, NP (parsePoryswitchStatement env sn n)
+  poryCases : ∀ env sn tok acc, NP (parsePoryswitchStatementCases env sn tok n acc)
+  poryStmts : ∀ env sn am acc imp, NP (parsePoryswitchStatements env sn am n acc imp)
+
+theorem npAll_zero : NPAll 0 :=
+  { block := by intros; intro s; rw [parseBlockStatement]; npsimp
+    swblock := by intros; intro s; rw [parseSwitchBlockStatement]; npsimp
+    stmt := by intros; intro s; rw [parseStatement]; npsimp
+    cond := by intros; intro s; rw [parseConditionExpression]; npsimp
+    elifs := by intros; intro s; rw [parseElifs]; npsimp
+    ifs := by intros; intro s; rw [parseIfStatement]; npsimp
+    whiles := by intros; intro s; rw [parseWhileStatement]; npsimp
+    doWhiles := by intros; intro s; rw [parseDoWhileStatement]; npsimp
+    cases := by intros; intro s; rw [parseSwitchCases]; npsimp
+    switch := by intros; intro s; rw [parseSwitchStatement]; npsimp
+    pory := by intros; intro s; rw [parsePoryswitchStatement]; npsimp
+    poryCases := by intros; intro s; rw [parsePoryswitchStatementCases]; npsimp
+    poryStmts := by intros; intro s; rw [parsePoryswitchStatements]; npsimp }
+
+theorem npAll_succ {n : Nat} (ih : NPAll n) : NPAll (n + 1) :=
+  { block := by
+      intro env sn tok acc imp s
+      rw [parseBlockStatement]
+      npfin [(ih.stmt _ _).iff, (ih.block _ _ _ _ _).iff, wp_unfold (parseStatement _ _ _)]
+    swblock := by
+      intro env sn tok acc imp s
+      rw [parseSwitchBlockStatement]
+      npfin [(ih.stmt _ _).iff, (ih.swblock _ _ _ _ _).iff, wp_unfold (parseStatement _ _ _)]
+    stmt := by
+      intro env sn s
+      rw [parseStatement]
+      npfin [(ih.ifs _ _).iff, (ih.whiles _ _).iff, (ih.doWhiles _ _).iff, (ih.switch _ _).iff,
+        (ih.pory _ _).iff, (np_tryParseLabelStatement).iff, frame_tryParseLabelStatement.wp_iff,
+        (np_parseCommandStatement _ _ _).iff, (frame_parseCommandStatement _ _ _).wp_iff]
+    cond := by
+      intro env sn req s
+      rw [parseConditionExpression]
+      npfin [(ih.block _ _ _ _ _).iff, (np_parseBooleanExpression _ _ _ _ _).iff,
+        (frame_parseBooleanExpression _ _ _ _ _).wp_iff, wp_unfold (parseBlockStatement _ _ _ _ _ _)]
+    elifs := by
+      intro env sn acc imp s
+      rw [parseElifs]
+      npfin [(ih.cond _ _ _).iff, (ih.elifs _ _ _ _).iff, wp_spec (cond_some _ _ _ _)]
+      all_goals contradiction
+    ifs := by
+      intro env sn s
+      rw [parseIfStatement]
+      npfin [(ih.cond _ _ _).iff, (ih.elifs _ _ _ _).iff, (ih.block _ _ _ _ _).iff,
+        wp_spec (cond_some _ _ _ _), wp_unfold (parseElifs _ _ _ _ _),
+        wp_unfold (parseBlockStatement _ _ _ _ _ _)]
+      all_goals first
+        | contradiction
+        | exact opt_absurd (by assumption) (by assumption)
+    whiles := by
+      intro env sn s
+      rw [parseWhileStatement]
+      npfin [(ih.cond _ _ _).iff, wp_unfold (parseConditionExpression _ _ _ _)]
+    doWhiles := by
+      intro env sn s
+      rw [parseDoWhileStatement]
+      npfin [(ih.block _ _ _ _ _).iff, wp_unfold (parseBlockStatement _ _ _ _ _ _),
+        (np_parseBooleanExpression _ _ _ _ _).iff, (frame_parseBooleanExpression _ _ _ _ _).wp_iff]
+    cases := by
+      intro env sn tok cs vals hd imp s
+      rw [parseSwitchCases]
+      npfin [(ih.swblock _ _ _ _ _).iff, (ih.cases _ _ _ _ _ _ _).iff,
+        wp_unfold (parseSwitchBlockStatement _ _ _ _ _ _),
+        (np_collectUntil _ _ ((notPanic_err _ _).2 trivial) _ _).iff, (frame_collectUntil _ _ _ _).wp_iff]
+    switch := by
+      intro env sn s
+      rw [parseSwitchStatement]
+      npfin [(ih.cases _ _ _ _ _ _ _).iff, wp_unfold (parseSwitchCases _ _ _ _ _ _ _ _),
+        (np_expectPeekVarOrAutoVar _ _ _).iff, (frame_expectPeekVarOrAutoVar _ _ _).wp_iff,
+        (np_switchOperandLoop _ _ _).iff, (frame_switchOperandLoop _ _ _).wp_iff]
+    pory := by
+      intro env sn s
+      rw [parsePoryswitchStatement]
+      npfin [(ih.poryCases _ _ _ _).iff, wp_unfold (parsePoryswitchStatementCases _ _ _ _ _),
+        (np_parsePoryswitchHeader _).iff, (frame_parsePoryswitchHeader _).wp_iff]
+    poryCases := by
+      intro env sn tok acc s
+      rw [parsePoryswitchStatementCases]
+      npfin [(ih.poryStmts _ _ _ _ _).iff, (ih.poryCases _ _ _ _).iff,
+        wp_unfold (parsePoryswitchStatements _ _ _ _ _ _)]
+    poryStmts := by
+      intro env sn am acc imp s
+      rw [parsePoryswitchStatements]
+      npfin [(ih.stmt _ _).iff, (ih.pory _ _).iff, (ih.poryStmts _ _ _ _ _).iff,
+        wp_unfold (parseStatement _ _ _), wp_unfold (parsePoryswitchStatement _ _ _)] }
+
+/-- **No function of the statement block panics**, for every fuel. -/
+theorem npAll : ∀ n : Nat, NPAll n
+  | 0 => npAll_zero
+  | n + 1 => npAll_succ (npAll n)
+
+/-! ### top level -/
+
+theorem np_parseBlockStatement (env : Env) (sn : String) (tok : Tok) (n : Nat) (acc : List Stmt)
+    (imp : ImpData) : NP (parseBlockStatement env sn tok n acc imp) := (npAll n).block env sn tok acc imp
+
+theorem np_parseScriptStatement (env : Env) (n : Nat) : NP (parseScriptStatement env n) := by
+  intro s
+  unfold parseScriptStatement
+  npfin [(np_parseScopeModifier _).iff, (frame_parseScopeModifier _).wp_iff,
+    (np_parseBlockStatement _ _ _ _ _ _).iff, wp_unfold (parseBlockStatement _ _ _ _ _ _)]
+
+theorem np_parseRawStatement : NP parseRawStatement := by
+  intro s; unfold parseRawStatement; npsimp
+
+theorem np_poryswitchTextCases (env : Env) (tok : Tok) :
+    ∀ (n : Nat) (acc : List (String × String × String)), NP (poryswitchTextCases env tok n acc) := by
+  intro n
+  induction n with
+  | zero => intro acc s; rw [poryswitchTextCases]; npsimp
+  | succ n ih =>
+    intro acc s
+    rw [poryswitchTextCases]
+    npfin [(ih _).iff, (np_parseTextValue _ _).iff, (frame_parseTextValue _ _).wp_iff]
+
+theorem np_parsePoryswitchTextStatement (env : Env) (n : Nat) :
+    NP (parsePoryswitchTextStatement env n) := by
+  intro s
+  unfold parsePoryswitchTextStatement
+  npfin [(np_parsePoryswitchHeader _).iff, (frame_parsePoryswitchHeader _).wp_iff,
+    (np_poryswitchTextCases _ _ _ _).iff, (frame_poryswitchTextCases _ _ _ _).wp_iff]
+
+theorem np_parseTextStatement (env : Env) (n : Nat) : NP (parseTextStatement env n) := by
+  intro s
+  unfold parseTextStatement
+  npfin [(np_parseScopeModifier _).iff, (frame_parseScopeModifier _).wp_iff,
+    (np_parsePoryswitchTextStatement _ _).iff, (frame_parsePoryswitchTextStatement _ _).wp_iff,
+    (np_parseTextValue _ _).iff, (frame_parseTextValue _ _).wp_iff]
+
+theorem np_parseMovementStatement (env : Env) (n : Nat) : NP (parseMovementStatement env n) := by
+  intro s
+  unfold parseMovementStatement
+  npfin [(np_parseScopeModifier _).iff, (frame_parseScopeModifier _).wp_iff,
+    (np_parseListValue _ _ _ _ _).iff, (frame_parseListValue _ _ _ _ _).wp_iff]
+
+theorem np_mapM_tryReplace : ∀ (l : List Tok), NP (l.mapM fun t => tryReplaceWithConstant t.lit) := by
+  intro l
+  induction l with
+  | nil => intro s; simp only [List.mapM_nil]; npsimp
+  | cons x r ih => intro s; simp only [List.mapM_cons]; npsimp [(ih).iff]
+
+theorem np_parseMartStatement (env : Env) (n : Nat) : NP (parseMartStatement env n) := by
+  intro s
+  unfold parseMartStatement
+  npfin [(np_parseScopeModifier _).iff, (frame_parseScopeModifier _).wp_iff,
+    (np_parseListValue _ _ _ _ _).iff, (frame_parseListValue _ _ _ _ _).wp_iff,
+    (np_mapM_tryReplace _).iff, (frame_mapM_tryReplace _).wp_iff]
+
+theorem np_tableCollect (stop : Tok → Bool) (onEOF : PFail) (h : NotPanic onEOF) :
+    ∀ (n : Nat) (acc : String), NP (tableCollect stop onEOF n acc) := by
+  intro n
+  induction n with
+  | zero => intro acc s; rw [tableCollect]; npsimp
+  | succ n ih => intro acc s; rw [tableCollect]; npsimp [(ih _).iff, iff_true_intro h]
+
+theorem np_parseTableEntries (env : Env) (ms ty : String) : ∀ (n i : Nat) (acc : List TableEntry)
+    (imp : ImpData), NP (parseTableEntries env ms ty n i acc imp) := by
+  intro n
+  induction n with
+  | zero => intro i acc imp s; rw [parseTableEntries]; npsimp
+  | succ n ih =>
+    intro i acc imp s
+    rw [parseTableEntries]
+    npfin [(ih _ _ _).iff, (np_tableCollect _ _ ((notPanic_err _ _).2 trivial) _ _).iff,
+      (np_tableCollect _ _ ((notPanic_rerr _ _ _).2 trivial) _ _).iff, (frame_tableCollect _ _ _ _).wp_iff,
+      (np_parseBlockStatement _ _ _ _ _ _).iff, wp_unfold (parseBlockStatement _ _ _ _ _ _)]
+
+theorem np_parseMapScriptEntries (env : Env) (ms : String) : ∀ (n : Nat) (mss : List MapScript)
+    (tables : List TableMapScript) (imp : ImpData), NP (parseMapScriptEntries env ms n mss tables imp) := by
+  intro n
+  induction n with
+  | zero => intro mss tables imp s; rw [parseMapScriptEntries]; npsimp
+  | succ n ih =>
+    intro mss tables imp s
+    rw [parseMapScriptEntries]
+    npfin [(ih _ _ _).iff, (np_parseTableEntries _ _ _ _ _ _ _).iff,
+      wp_unfold (parseTableEntries _ _ _ _ _ _ _),
+      (np_parseBlockStatement _ _ _ _ _ _).iff, wp_unfold (parseBlockStatement _ _ _ _ _ _)]
+
+theorem np_parseMapscriptsStatement (env : Env) (n : Nat) : NP (parseMapscriptsStatement env n) := by
+  intro s
+  unfold parseMapscriptsStatement
+  npfin [(np_parseScopeModifier _).iff, (frame_parseScopeModifier _).wp_iff,
+    (np_parseMapScriptEntries _ _ _ _ _ _).iff, wp_unfold (parseMapScriptEntries _ _ _ _ _ _)]
+
+theorem np_constLoop : ∀ (n : Nat) (acc : String), NP (constLoop n acc) := by
+  intro n
+  induction n with
+  | zero => intro acc s; rw [constLoop]; npsimp
+  | succ n ih => intro acc s; rw [constLoop]; npsimp [(ih _).iff]
+
+theorem np_parseConstant (n : Nat) : NP (parseConstant n) := by
+  intro s
+  unfold parseConstant
+  npfin [(np_constLoop _ _).iff, (frame_constLoop _ _).wp_iff]
+
+theorem np_addImplicitData (d : ImpData) : NP (addImplicitData d) := by
+  intro s
+  unfold addImplicitData addImplicitTexts addImplicitMovements
+  npsimp
+
+theorem np_parseTopLevelStatement (env : Env) (n : Nat) : NP (parseTopLevelStatement env n) := by
+  intro s
+  unfold parseTopLevelStatement
+  npfin [(np_parseScriptStatement _ _).iff, wp_unfold (parseScriptStatement _ _),
+    (np_addImplicitData _).iff, wp_unfold (addImplicitData _),
+    (np_parseRawStatement).iff, wp_unfold parseRawStatement,
+    (np_parseTextStatement _ _).iff, wp_unfold (parseTextStatement _ _),
+    (np_parseMovementStatement _ _).iff, wp_unfold (parseMovementStatement _ _),
+    (np_parseMartStatement _ _).iff, wp_unfold (parseMartStatement _ _),
+    (np_parseMapscriptsStatement _ _).iff, wp_unfold (parseMapscriptsStatement _ _),
+    (np_parseConstant _).iff, wp_unfold (parseConstant _)]
+
+theorem np_topLoop (env : Env) (fuel : Nat) : ∀ (n : Nat) (acc : List Top), NP (topLoop env fuel n acc) := by
+  intro n
+  induction n with
+  | zero => intro acc s; rw [topLoop]; npsimp
+  | succ n ih =>
+    intro acc s
+    rw [topLoop]
+    npfin [(ih _).iff, (np_parseTopLevelStatement _ _).iff, wp_unfold (parseTopLevelStatement _ _)]
+
+theorem np_parseProgramM (env : Env) (fuel : Nat) : NP (parseProgramM env fuel) := by
+  intro s
+  unfold parseProgramM
+  npfin [(np_topLoop _ _ _ _).iff, wp_unfold (topLoop _ _ _ _)]
+
+/-- **The parser never panics.** -/
+theorem no_panic_parseTokens (env : Env) (toks : List Tok) (w : String) :
+    parseTokens env toks ≠ .error (.panic w) := by
+  unfold parseTokens
+  simp only [StateT.run']
+  intro h
+  generalize hr : (parseProgramM env (4 * toks.length + 50))
+    { toks := toks, eof := toks.getLastD { type := .EOF } } = res at h
+  cases res with
+  | error e =>
+    simp only [Functor.map, Except.map, Except.error.injEq] at h
+    subst h
+    exact np_parseProgramM env _ _ w hr
+  | ok r => simp [Functor.map, Except.map] at h
 
 end Pory.Parser
